@@ -71,6 +71,8 @@ structure Fan (env : Env) (w w' : World) : Prop where
   stage : w.stage <+: w'.stage
   off : w.anyAdded = true → w.dests.Nodup → ∀ d ∈ w.dests, offeredTo w' d = offeredTo w d ++ newStage w w'
   acc : w.anyAdded = true → w.dests.Nodup → ∀ d ∈ w.dests, healthy env d → acceptedBy w' d = acceptedBy w d ++ newStage w w'
+  /-- a destination that is not registered is offered nothing -/
+  other : ∀ d, d ∉ w.dests → offeredTo w' d = offeredTo w d
 
 theorem newStage_self (w : World) : newStage w w = [] := by simp [newStage]
 
@@ -85,10 +87,12 @@ theorem newStage_trans {a b c : World} (h1 : a.stage <+: b.stage) (h2 : b.stage 
   rfl
 
 theorem Fan.refl (env : Env) (w : World) : Fan env w w :=
-  ⟨rfl, rfl, List.prefix_refl _, fun _ _ _ _ => by simp [newStage_self], fun _ _ _ _ _ => by simp [newStage_self]⟩
+  ⟨rfl, rfl, List.prefix_refl _, fun _ _ _ _ => by simp [newStage_self], fun _ _ _ _ _ => by simp [newStage_self],
+   fun _ _ => rfl⟩
 
 theorem Fan.trans {env : Env} {a b c : World} (h1 : Fan env a b) (h2 : Fan env b c) : Fan env a c := by
-  refine ⟨h2.anyAdded.trans h1.anyAdded, h2.dests.trans h1.dests, h1.stage.trans h2.stage, ?_, ?_⟩
+  refine ⟨h2.anyAdded.trans h1.anyAdded, h2.dests.trans h1.dests, h1.stage.trans h2.stage, ?_, ?_,
+    fun d hd => (h2.other d (h1.dests ▸ hd)).trans (h1.other d hd)⟩
   · intro ha hn d hd
     have hb : b.anyAdded = true := h1.anyAdded ▸ ha
     have hnb : b.dests.Nodup := h1.dests ▸ hn
@@ -102,7 +106,7 @@ theorem Fan.trans {env : Env} {a b c : World} (h1 : Fan env a b) (h2 : Fan env b
 
 theorem Fan.ofQuiet {env : Env} {w w' : World} (q : Quiet w w') : Fan env w w' :=
   ⟨q.frame.anyAdded, q.frame.dests, q.frame.stage, fun _ _ _ _ => by simp [offeredTo, newStage, q.offered, q.stage],
-   fun _ _ _ _ _ => by simp [acceptedBy, newStage, q.accepted, q.stage]⟩
+   fun _ _ _ _ _ => by simp [acceptedBy, newStage, q.accepted, q.stage], fun _ _ => by simp [offeredTo, q.offered]⟩
 
 /-! ### the loop -/
 theorem callDest_offered (env : Env) (w : World) (d : Nat) (m : Msg) :
@@ -186,7 +190,23 @@ theorem filter_self_nodup (ds : List Nat) (hn : ds.Nodup) (d : Nat) (hd : d ∈ 
 
 /-- `deliver`: one more staged message, offered to every registered destination exactly once. -/
 theorem fan_deliver (env : Env) (w : World) (m : Msg) : Fan env w (w.deliver env m).1 := by
-  refine ⟨(frame_deliver env w m).anyAdded, (frame_deliver env w m).dests, (frame_deliver env w m).stage, ?_, ?_⟩
+  refine ⟨(frame_deliver env w m).anyAdded, (frame_deliver env w m).dests, (frame_deliver env w m).stage, ?_, ?_, ?_⟩
+  rotate_left 2
+  · intro d hd
+    unfold World.deliver
+    simp only
+    split
+    · obtain ⟨h1, _⟩ := fanOut_offered env (Fields.update m w.globals) w.dests
+        { w with stage := w.stage ++ [Fields.update m w.globals] }
+      simp only [offeredTo, h1, List.filter_append, List.map_append]
+      have : (w.dests.map (fun d => (d, Fields.update m w.globals))).filter (fun e => e.1 == d) = [] := by
+        apply List.filter_eq_nil_iff.mpr
+        intro e he
+        obtain ⟨y, hy, rfl⟩ := List.mem_map.mp he
+        simp only [beq_iff_eq]
+        intro h; subst h; exact hd hy
+      rw [this]; simp
+    · simp [offeredTo]
   · intro ha hn d hd
     unfold World.deliver
     simp only
@@ -289,7 +309,7 @@ theorem fan_finishRec (env : Env) (w : World) (h : Nat) (exc : Option Exc) : Fan
 theorem Fan.ofSame {env : Env} {w w' : World} (h1 : w'.anyAdded = w.anyAdded) (h2 : w'.dests = w.dests)
     (h3 : w'.stage = w.stage) (h4 : w'.offered = w.offered) (h5 : w'.accepted = w.accepted) : Fan env w w' :=
   ⟨h1, h2, by rw [h3]; exact List.prefix_refl _, fun _ _ _ _ => by simp [offeredTo, newStage, h3, h4],
-   fun _ _ _ _ _ => by simp [acceptedBy, newStage, h3, h5]⟩
+   fun _ _ _ _ _ => by simp [acceptedBy, newStage, h3, h5], fun _ _ => by simp [offeredTo, h4]⟩
 
 theorem fan_startAction (env : Env) (w : World) (task : Bool) (sp : Spec)
     (hb : ∀ a ∈ w.acts, a.uuid < w.nextUuid) : Fan env w (w.startAction env task sp).1 := by
